@@ -2,7 +2,7 @@
 SuperSpeedEndpointInterface (handshakes_in / handshakes_out / tx stream) by a reactive host model,
 a stream producer and a tx.ready pattern.
 
-Three case kinds:
+Four case kinds:
   alone    the endpoint by itself; handshakes_out.ready / done are driven by a behavioural transaction packet
            generator (requests taken only while ready, done for every completed packet -- the endpoint's NRDY, its
            ERDY, packets of other endpoints --, bounded queue latency)
@@ -11,6 +11,12 @@ Three case kinds:
            random back-pressure; the monitor judges the transaction packets handed to the queue
   loopmux  the same through the REAL SuperSpeedEndpointMultiplexer (protocol/endpoint.py) with a second, idle
            endpoint interface, as USBSuperSpeedDevice wires it
+
+  shared   (monitor only) loopmux with the multiplexer's second endpoint interface DRIVEN: another endpoint's ACK / STALL
+           packets go through the shared generator between this endpoint's NRDY and its ERDY (shared_cases)
+
+Every NRDY / ERDY header handed to the queue is decoded from the USB 3.2 header tables (decode_tp) and must name this
+endpoint, IN, this device; the host model polls again only on such an ERDY.
 
 Profile `wrap` (wrap_cases, all three kinds): >= 72 short packets per case so that the 5-bit sequence number wraps at
 least twice, with retries, lost packets, ZLPs, ACKs without IN request and NRDY/ERDY episodes placed at the sequence
@@ -49,7 +55,16 @@ RULE = ("cases = (max_packet_size in 8/16/32/64(/1024 thorough), endpoint 1..15)
         "repeated number / Retry bit with the next number / ACK without IN request / none) placed by rotation over the case "
         "index so that all 15 combinations occur at each of the four numbers, further events at random elsewhere; the host "
         "view of the monitor numbers the accepted packets modulo 32 (coverage tags seq30:/seq31:/seq0:/seq1: x "
-        "data/zlp/nrdy/erdy/retry-rty/retry-lost/retry-rtynext/ack-nump0/ack-nump1, seq-wraps=2, pkts>=70)")
+        "data/zlp/nrdy/erdy/retry-rty/retry-lost/retry-rtynext/ack-nump0/ack-nump1, seq-wraps=2, pkts>=70); 24 (widen 40, "
+        "thorough 72) monitor-only `shared` cases: the endpoint behind the real multiplexer and the real generator, the "
+        "multiplexer's SECOND endpoint interface driven: after this endpoint's NRDY header has been handed to the queue and "
+        "before the withheld transfer-ending word is released, the other endpoint (endpoint 0 in 2 of 3 cases, another number "
+        "otherwise) has the shared generator send 1..2 ACK / STALL packets of its own (requests only while the generator is "
+        "ready and this endpoint is not requesting; word released after the foreign header was handed over, or while the "
+        "foreign packet is still in the generator; queue latency 0/1/3/8), so that the ERDY is requested when the "
+        "generator's previous packet was another endpoint's; every NRDY / ERDY header is decoded from the USB 3.2 tables "
+        "(type TP, subtype, endpoint, direction IN, device address, ERDY NumP >= 1) and must name THIS endpoint; the host "
+        "model polls again only on an ERDY naming this endpoint")
 ASSUMPTIONS = [
     "producer: stream.valid is a byte-prefix mask, a partial word only together with last, word held until ready",
     "host: one outstanding data packet; ACK TPs answer the packet last sent; no IN request while flow-controlled by NRDY",
@@ -61,6 +76,9 @@ ASSUMPTIONS = [
     "closed loop (loop_* theorems, loop/loopmux cases): the transaction packet generator serves this endpoint only (no "
     "send_ack/send_stall of other endpoints; the multiplexer performs no arbitration); loop_erdy_within_bound and the "
     "monitor clause ss-in-erdy-late: the header queue never lets more than L consecutive cycles pass without ready",
+    "`shared` cases (monitor only): another endpoint uses the generator only between this endpoint's NRDY and its ERDY, "
+    "never in the cycle of this endpoint's one-cycle NRDY strobe and never so that the generator is busy when the host's "
+    "IN request arrives (the multiplexer performs no arbitration); at most one foreign packet is in the generator",
 ]
 PARTIAL = ("the theorems are about SuperSpeedStreamInEndpoint as repaired by six fix: commits (branch wt-ssep: 1df4da8 ddf15b0 "
            "ce4a978 f170f77 50f0842 5e057c5, cherry-picked into /repo); the unrepaired code violated C46 in six ways "
@@ -84,8 +102,26 @@ PARTIAL = ("the theorems are about SuperSpeedStreamInEndpoint as repaired by six
 T_ANSWER = 24
 T_STUCK = 120
 T_REQ = 4          # cycles the endpoint may take to raise send_erdy once a packet is complete after an NRDY
-KINDS = {"alone": 0, "loop": 1, "loopmux": 2}
-SUB_NRDY, SUB_ERDY = 2, 3
+KINDS = {"alone": 0, "loop": 1, "loopmux": 2, "shared": 2}
+# transaction packet header fields, USB 3.2 section 8.5 (Tables 8-12 .. 8-16): DW0 = Type[4:0] (00100b = transaction
+# packet), route string[24:5], device address[31:25]; DW1 = SubType[3:0] (ACK 1, NRDY 2, ERDY 3, STATUS 4, STALL 5),
+# direction[7] (1 = IN), endpoint number[11:8]; ERDY (Table 8-16) additionally NumP[20:16]
+TYPE_TP = 4
+SUB_ACK, SUB_NRDY, SUB_ERDY, SUB_STALL = 1, 2, 3, 5
+SUB_NAMES = {SUB_ACK: "ack", SUB_NRDY: "nrdy", SUB_ERDY: "erdy", SUB_STALL: "stall"}
+
+
+def decode_tp(dw0, dw1):
+    """Header words of a transaction packet -> fields (independent of the Lean model and of the gateware's Records)."""
+    return {"type": dw0 & 0x1F, "address": (dw0 >> 25) & 0x7F, "subtype": dw1 & 0xF, "direction": (dw1 >> 7) & 1,
+            "endpoint": (dw1 >> 8) & 0xF, "nump": (dw1 >> 16) & 0x1F}
+
+
+def erdy_names(dw0, dw1, ep, address):
+    """Is this header an ERDY transaction packet that tells the host at `address` that endpoint `ep` IN has data?"""
+    f = decode_tp(dw0, dw1)
+    return (f["type"] == TYPE_TP and f["subtype"] == SUB_ERDY and f["endpoint"] == ep and f["direction"] == 1
+            and f["address"] == address)
 
 
 K_ERDY = T_REQ + 5
@@ -151,6 +187,20 @@ def gen_cases(tier, rng):
         out.append({"mps": mps, "ep": rng.range(1, 15), "mode": "wild" if k % 8 == 7 else "script", "kind": kind,
                     "lmax": rng.choice([0, 1, 2, 5, 12]), "seed": rng.u64(), "k": k})
     out += wrap_cases({"quick": 30, "widen": 30}.get(tier, 90), rng, tier)
+    out += shared_cases({"quick": 24, "widen": 40}.get(tier, 72), rng)
+    return out
+
+
+def shared_cases(n, rng):
+    """The endpoint behind the REAL multiplexer and the REAL transaction packet generator, the generator SHARED with a
+    second endpoint interface that is driven (monitor-only cases, the Lean model has no such input): after the IN
+    endpoint was answered NRDY and before its data arrives, the other endpoint has the generator send an ACK / STALL
+    transaction packet of its own (endpoint 0 = the control endpoint, or another number).  k = 2 selects the `teaser`
+    producer, which withholds the word that ends a transfer until after the NRDY."""
+    out = []
+    for w in range(n):
+        out.append({"mps": rng.choice([8, 8, 16, 32]), "ep": rng.range(1, 15), "mode": "script", "kind": "shared",
+                    "lmax": [0, 1, 3, 8][w % 4], "seed": rng.u64(), "k": 2, "fgn": w})
     return out
 
 
@@ -189,6 +239,10 @@ OUT_NAMES_LOOP = OUT_NAMES + ["gen_ready", "gen_done", "hdr_valid", "hdr_dw0", "
 O = {n: i for i, n in enumerate(OUT_NAMES_LOOP)}
 I = {n: i for i, n in enumerate(IN_NAMES)}
 I["q_ready"], I["address"] = 9, 11
+# kind `shared`: requests of the second endpoint interface behind the multiplexer (handshakes_out of that interface)
+IN_NAMES_SHARED = IN_NAMES_LOOP + ["f_ack", "f_stall", "f_ep", "f_seq", "f_retry"]
+for _n in IN_NAMES_SHARED[12:]:
+    I[_n] = IN_NAMES_SHARED.index(_n)
 
 
 class PyGen:
@@ -220,8 +274,14 @@ class PyGen:
 class Agent:
     """Generates the inputs of cycle t from what was observed up to cycle t-1."""
 
-    def __init__(self, rng, mps, ep, mode, k, kind="alone", lmax=3, race=None, wrap=None, npk=76):
+    def __init__(self, rng, mps, ep, mode, k, kind="alone", lmax=3, race=None, wrap=None, npk=76, fgn=0):
         self.r, self.mps, self.ep, self.mode = rng, mps, ep, mode
+        # kind `shared`: the other endpoint's request between this endpoint's NRDY and its ERDY
+        self.shared = kind == "shared"
+        self.f_state, self.f_at, self.f_left, self.f_req, self.last_o = "idle", 0, 0, None, None
+        self.f_rel = "after"
+        others = [e for e in range(16) if e != ep]
+        self.f_ep = 0 if fgn % 3 != 2 else rng.choice(others)      # the control endpoint, or any other endpoint
         self.kind, self.lmax, self.race = kind, lmax, race
         self.wrap, self.hold, self.hev, self.pidx, self.npk, self.done_at, self.holding = wrap, set(), {}, 0, None, None, False
         # producer
@@ -443,7 +503,22 @@ class Agent:
         else:
             # idle handshake bus carries junk fields
             row[I["hs_ep"]], row[I["next_seq"]], row[I["nump"]] = r.below(16), r.below(32), r.below(3)
+        if self.shared:
+            row += self.foreign_cols(t)
         return row
+
+    def foreign_cols(self, t):
+        """[f_ack, f_stall, f_ep, f_seq, f_retry]: a one-cycle request of the other endpoint, made only while the generator
+        was ready and this endpoint was not requesting in the previous cycle (the multiplexer does not arbitrate)."""
+        r, lo = self.r, self.last_o
+        cols = [0, 0, r.below(16), r.below(32), r.below(2)]          # idle interface: junk parameters
+        self.f_req = None
+        if (self.f_state == "armed" and t >= self.f_at and lo is not None and lo[O["gen_ready"]]
+                and not lo[O["send_nrdy"]] and not lo[O["send_erdy"]]):
+            stall = int(r.chance(25))
+            cols = [1 - stall, stall, self.f_ep, r.below(32), r.below(2)]
+            self.f_req = t
+        return cols
 
     def observe(self, t, row, o):
         if self.present and o[O["s_ready"]]:
@@ -451,8 +526,36 @@ class Agent:
             self.wi += 1
         if self.wrap is not None and self.holding and o[O["send_nrdy"]] and self.release_at is None:
             self.release_at = t + 1 + self.r.choice([0, 0, 1, 2, 3, self.lmax + 1, self.lmax + 3])
-        if self.teaser and o[O["send_nrdy"]] and self.release_at is None:
+        self.last_o = o
+        if self.shared and self.teaser and o[O["send_nrdy"]] and self.release_at is None and self.f_state == "idle" \
+                and self.r.chance(85):
+            # the other endpoint's packet comes between this NRDY and the ERDY: the withheld word is released only
+            # after that packet has been requested ("during": while it is in the generator) or handed to the queue
+            self.f_state, self.f_left = "wait-nrdy", self.r.choice([1, 1, 1, 2])
+            self.f_rel = self.r.choice(["after", "after", "after", "during"])
+        elif self.teaser and o[O["send_nrdy"]] and self.release_at is None and self.f_state == "idle":
             self.release_at = t + 1 + self.r.choice([0, 0, 1, 2, 3, self.lmax, self.lmax + 1, self.lmax + 3])
+        if self.shared:
+            if self.f_req == t:
+                # taken iff the generator was ready and this endpoint did not request in the same cycle
+                if o[O["gen_ready"]] and not o[O["send_nrdy"]] and not o[O["send_erdy"]]:
+                    self.f_state = "sent"
+                    if self.f_rel == "during" and self.f_left == 1 and self.release_at is None:
+                        self.release_at = t + 1 + self.r.choice([0, 1, 2])
+            if o[O["hdr_valid"]] and row[I["q_ready"]]:
+                sub = o[O["hdr_dw1"]] & 15
+                if self.f_state == "wait-nrdy" and sub == SUB_NRDY:
+                    self.f_state, self.f_at = "armed", t + 1 + self.r.choice([0, 0, 1, 3])
+                elif self.f_state == "sent" and sub in (SUB_ACK, SUB_STALL):
+                    self.f_left -= 1
+                    if self.f_left > 0:
+                        self.f_state, self.f_at = "armed", t + 1 + self.r.choice([0, 1, 4])
+                    else:
+                        self.f_state = "idle"
+                        if self.release_at is None:
+                            self.release_at = t + 1 + self.r.choice([0, 0, 1, 2, 5])
+            if self.f_state != "idle" and self.release_at is not None and t >= self.release_at + 2 and self.f_state != "sent":
+                self.f_state = "idle"          # the word was released by the hold time-out: no further foreign requests
         # has an ERDY for this endpoint been handed to the header queue in this cycle?
         if self.kind == "alone":
             erdy_sent = self.gen.update(o[O["send_nrdy"]], o[O["send_erdy"]]) == "erdy"
@@ -460,7 +563,8 @@ class Agent:
             erdy_sent = False
             if o[O["hdr_valid"]]:
                 if row[I["q_ready"]]:
-                    erdy_sent = (o[O["hdr_dw1"]] & 15) == SUB_ERDY
+                    # the host polls again only on an ERDY that names THIS endpoint, direction IN, and its device address
+                    erdy_sent = erdy_names(o[O["hdr_dw0"]], o[O["hdr_dw1"]], self.ep, row[I["address"]])
                     self.q_wait, self.q_need = 0, self.r.range(0, self.lmax)
                 else:
                     self.q_wait += 1
@@ -532,6 +636,8 @@ def monitor(mps, ep, stim, rows, kind="alone"):
     """The host-view property on the real trace.  Returns (failures, tags); stops at the first failure."""
     tags = set()
     loop = kind != "alone"
+    shared = kind == "shared"
+    foreign_since_nrdy = False      # kind shared: the generator sent another endpoint's packet since this endpoint's NRDY
     gen_busy = None        # what the transaction packet generator is working on: (kind, cycle of the request)
     requests = []          # closed loop: requests the real generator has taken, not yet seen on the header queue
     taken_at = None        # closed loop: cycle in which the generator took a request (its header is due one cycle later)
@@ -705,20 +811,45 @@ def monitor(mps, ep, stim, rows, kind="alone"):
             if (o[O["send_nrdy"]] or o[O["send_erdy"]]) and o[O["gen_ready"]]:
                 requests.append(("erdy" if o[O["send_erdy"]] else "nrdy", t))
                 taken_at = t
+            elif shared and (i[I["f_ack"]] or i[I["f_stall"]]) and o[O["gen_ready"]]:
+                # a request of the OTHER endpoint interface (this endpoint is not requesting: the multiplexer passes it on)
+                requests.append(("ack" if i[I["f_ack"]] else "stall", t))
+                taken_at = t
+                foreign_since_nrdy = flow
+                tags.add("foreign:%s-ep%s%s" % (requests[-1][0], "0" if i[I["f_ep"]] == 0 else "N",
+                                                 "-between-nrdy-and-erdy" if flow else ""))
             if o[O["hdr_valid"]] and i[I["q_ready"]]:
-                sub, hep, dirn = o[O["hdr_dw1"]] & 15, (o[O["hdr_dw1"]] >> 8) & 15, (o[O["hdr_dw1"]] >> 7) & 1
-                name = {SUB_NRDY: "nrdy", SUB_ERDY: "erdy"}.get(sub, "subtype %d" % sub)
+                f = decode_tp(o[O["hdr_dw0"]], o[O["hdr_dw1"]])
+                sub, hep, dirn = f["subtype"], f["endpoint"], f["direction"]
+                name = SUB_NAMES.get(sub, "subtype %d" % sub)
                 tags.add("tp:" + name)
                 if o[O["gen_done"]] and o[O["send_erdy"]] and name == "nrdy":
                     tags.add("gen:nrdy-done-while-erdy-requested")
                 if not requests or requests[0][0] != name:
                     return fail(t, "ss-in-tp-wrong", "transaction packet %s handed to the header queue, requested were %s"
                                 % (name, [k for k, _ in requests]))
-                if (hep != ep or dirn != 1) and not noted:
+                own = name in ("nrdy", "erdy")          # sent on behalf of THIS endpoint (the other endpoint's ACK / STALL
+                #                                         packets are not this property's business)
+                if own and (hep != ep or dirn != 1) and not noted:
                     return fail(t, "ss-in-tp-endpoint", "%s transaction packet names endpoint %d direction %d, this is "
-                                "endpoint %d IN" % (name.upper(), hep, dirn, ep))
+                                "endpoint %d IN%s" % (name.upper(), hep, dirn, ep,
+                                                      " (the generator's previous packet was another endpoint's)"
+                                                      if foreign_since_nrdy else ""))
+                if own and f["type"] != TYPE_TP:
+                    return fail(t, "ss-in-tp-type", "%s header for endpoint %d has DW0 type %d, a transaction packet has "
+                                "type %d" % (name.upper(), ep, f["type"], TYPE_TP))
+                if own and f["address"] != i[I["address"]]:
+                    return fail(t, "ss-in-tp-address", "%s transaction packet for endpoint %d carries device address %d, "
+                                "the device's address is %d" % (name.upper(), ep, f["address"], i[I["address"]]))
+                if name == "erdy" and f["nump"] == 0:
+                    return fail(t, "ss-in-erdy-nump", "ERDY for endpoint %d announces NumP = 0 packets" % ep)
                 requests.pop(0)
+                # the host is notified by an ERDY naming this endpoint, IN, and this device (checked just above)
                 erdy_sent = name == "erdy"
+                if erdy_sent and foreign_since_nrdy:
+                    tags.add("erdy:after-foreign-packet")
+                if erdy_sent:
+                    foreign_since_nrdy = False
         if erdy_sent:
             if not flow:
                 tags.add("dev:erdy-unsolicited")
@@ -776,7 +907,8 @@ def build_loop(ep_dut, via_mux):
             self.mux = None
             if via_mux:
                 self.mux = SuperSpeedEndpointMultiplexer()
-                self.mux.add_interface(SuperSpeedEndpointInterface())       # an endpoint that never requests anything
+                self.other = SuperSpeedEndpointInterface()                  # never requests anything (kind shared: driven)
+                self.mux.add_interface(self.other)
                 self.mux.add_interface(ep_dut.interface)
             self.shared = self.mux.shared if via_mux else ep_dut.interface
 
@@ -807,19 +939,23 @@ def run_case(desc):
                hin.retry_required, hin.next_sequence, hin.number_of_packets, hout.done, itf.ep_reset, hout.ready]
         names_in, names_out = IN_NAMES, OUT_NAMES
     else:
-        top = build_loop(dut, kind == "loopmux")
+        top = build_loop(dut, kind in ("loopmux", "shared"))
         hin, tx, gen = top.shared.handshakes_in, top.shared.tx, top.gen
         # through the multiplexer ep_reset is the shared config_changed strobe, which an endpoint raises
-        ep_reset = itf.config_changed if kind == "loopmux" else itf.ep_reset
+        ep_reset = itf.config_changed if kind in ("loopmux", "shared") else itf.ep_reset
         ins = [dut.stream.valid, dut.stream.last, dut.stream.payload, tx.ready, hin.ack_received, hin.endpoint_number,
                hin.retry_required, hin.next_sequence, hin.number_of_packets, gen.header_source.ready, ep_reset, gen.address]
         outs = outs + [gen.interface.ready, gen.interface.done, gen.header_source.valid, gen.header_source.header.dw0,
                        gen.header_source.header.dw1]
         names_in, names_out = IN_NAMES_LOOP, OUT_NAMES_LOOP
+        if kind == "shared":
+            fo = top.other.handshakes_out
+            ins = ins + [fo.send_ack, fo.send_stall, fo.endpoint_number, fo.next_sequence, fo.retry_required]
+            names_in = IN_NAMES_SHARED
     rng = Rng(desc["seed"])
     lmax = desc.get("lmax")
     agent = Agent(rng, mps, ep, desc["mode"], desc.get("k", 0), kind, 3 if lmax is None else lmax, desc.get("race"),
-                  desc.get("wrap"), desc.get("npk", 76))
+                  desc.get("wrap"), desc.get("npk", 76), desc.get("fgn", 0))
     ncycles = min(6000, 200 + 14 * len(agent.words) + (400 if mps <= 64 else 3000))
     if agent.wrap is not None:
         ncycles = 6000          # the run ends 40 cycles after the host has accepted the last planned packet
@@ -842,4 +978,5 @@ def run_case(desc):
             tags.append("profile=wrap")
             tags.append("wrap:finished" if agent.done_at is not None or desc.get("stimulus") else "wrap:unfinished")
     aw = max(0, (mps // 4 - 1).bit_length())
-    return Case([mps, ep, aw, KINDS[kind]], stim, rows, fails, tags, desc, names_in, names_out)
+    # kind shared: monitor-only (the Lean model has no second requesting endpoint)
+    return Case([mps, ep, aw, KINDS[kind]], stim, rows, fails, tags, desc, names_in, names_out, lean=(kind != "shared"))
